@@ -190,6 +190,14 @@ class sbix_glyph_ctor:
 _CGB = Obj(glyph_id=Int, bitmap=PNG, bitmap_filename=Str)
 
 
+_BMC = "nanoemoji.bitmap_tables.BitmapMetrics.create"
+
+
+def _sbix_glyph(ttfont, i):
+    # (the i-th glyph record in insertion order; its key is checked through glyphName)
+    return [g for g in [st for st in ttfont["sbix"].strikes.values()][0].glyphs.values()][i]
+
+
 @contract("nanoemoji.bitmap_tables.make_sbix_table", props=["C14"])
 class sbix_one_ppem:
     scope = "finite: 1..2 colour glyphs; sizes, metrics and configuration unconstrained"
@@ -203,12 +211,30 @@ class sbix_one_ppem:
         and all(c.bitmap.size[0] > 0 and c.bitmap.size[1] > 0 and map_has(ttfont.names, c.glyph_id) for c in color_glyphs)
         # the driver renders at bitmap_resolution (resvg -h); only the first is assumed to be
         and color_glyphs[0].bitmap.size[1] == config.bitmap_resolution
+        # distinct glyphs have distinct names
+        and (len(color_glyphs) < 2 or ttfont.names[color_glyphs[0].glyph_id] != ttfont.names[color_glyphs[1].glyph_id])
     ]
     # a strike has one ppem; bitmaps of different pixel heights cannot share it
     raises_if = {"AssertionError": lambda color_glyphs: any(c.bitmap.size[1] != color_glyphs[0].bitmap.size[1] for c in color_glyphs)}
     ensures = {
         "ppem-is-every-glyphs-ppem": lambda config, ttfont, color_glyphs: all(
             [k for k in ttfont["sbix"].strikes] == [round(config.upem * c.bitmap.size[1] / em(config))] for c in color_glyphs
+        ),
+        # every glyph holds its OWN image, placed by the metrics of that image (centring
+        # depends on each bitmap's width)
+        "metrics-computed-per-glyph": lambda config, color_glyphs, calls: len(calls[_BMC]) == len(color_glyphs)
+        and all(
+            calls[_BMC][i].args.image_data is color_glyphs[i].bitmap and calls[_BMC][i].args.ppem == round(config.upem * color_glyphs[0].bitmap.size[1] / em(config))
+            for i in range(len(color_glyphs))
+        ),
+        "one-record-per-glyph-under-its-name": lambda ttfont, color_glyphs: len([st for st in ttfont["sbix"].strikes.values()][0].glyphs) == len(color_glyphs)
+        and [k for k in [st for st in ttfont["sbix"].strikes.values()][0].glyphs] == [ttfont.names[c.glyph_id] for c in color_glyphs],
+        "each-glyph-holds-its-image": lambda ttfont, color_glyphs: all(_sbix_glyph(ttfont, i).imageData.size == color_glyphs[i].bitmap.size for i in range(len(color_glyphs))),
+        "each-glyph-record-names-its-glyph": lambda ttfont, color_glyphs: all(_sbix_glyph(ttfont, i).glyphName == ttfont.names[color_glyphs[i].glyph_id] for i in range(len(color_glyphs))),
+        "each-glyph-at-its-x-offset": lambda ttfont, color_glyphs, calls: all(_sbix_glyph(ttfont, i).originOffsetX == calls[_BMC][i].result.x_offset for i in range(len(color_glyphs))),
+        # originOffsetY: the bitmap's bottom edge below the baseline = -(line_height - line_ascent)
+        "each-glyph-at-its-y-offset": lambda ttfont, color_glyphs, calls: all(
+            _sbix_glyph(ttfont, i).originOffsetY == calls[_BMC][i].result.line_ascent - calls[_BMC][i].result.line_height for i in range(len(color_glyphs))
         ),
     }
     native = False
@@ -264,6 +290,10 @@ class cblc_index1_ctor:
     note = "eblc_index_sub_table_1(b'', font): plain attributes"
 
 
+def _rec_i(result, i):
+    return [v for v in result[1].values()][i]
+
+
 _CGP = Obj(glyph_id=Int, bitmap=Instance("spec.GhostPNG", size=TupleOf(Int, Int), n=Int), bitmap_filename=Str)
 
 
@@ -282,6 +312,7 @@ class cbdt_strike_one_ppem:
         and all(c.bitmap.n >= 0 for c in color_glyphs)
         and all(color_glyphs[i + 1].glyph_id == color_glyphs[i].glyph_id + 1 for i in range(0, len(color_glyphs) - 1))
         and color_glyphs[0].bitmap.size[1] == config.bitmap_resolution
+        and (len(color_glyphs) < 2 or ttfont.names[color_glyphs[0].glyph_id] != ttfont.names[color_glyphs[1].glyph_id])
     ]
     raises_if = {"AssertionError": lambda color_glyphs: any(c.bitmap.size[1] != color_glyphs[0].bitmap.size[1] for c in color_glyphs)}
     # a strike whose line height rounds to 0 (ppem 0) is rejected by util.only (StopIteration:
@@ -298,5 +329,20 @@ class cbdt_strike_one_ppem:
         # line metrics of the strike: the em box at the strike's ppem
         "line-ascender": lambda config, color_glyphs, result: result[0].bitmapSizeTable.hori.ascender
         == round(config.ascender * round(config.upem * color_glyphs[0].bitmap.size[1] / em(config)) / config.upem),
+        # exactly one bitmap record per glyph, under the glyph's name, holding its OWN image
+        # with the bearings computed from that image, and indexed in glyph order
+        "metrics-computed-per-glyph": lambda config, color_glyphs, calls: len(calls[_BMC]) == len(color_glyphs)
+        and all(calls[_BMC][i].args.image_data is color_glyphs[i].bitmap for i in range(len(color_glyphs))),
+        "one-record-per-glyph-with-its-image-and-bearings": lambda ttfont, color_glyphs, result, calls: len(result[1]) == len(color_glyphs)
+        and [k for k in result[1]] == [ttfont.names[c.glyph_id] for c in color_glyphs]
+        and all(
+            _rec_i(result, i).imageData is color_glyphs[i].bitmap
+            and _rec_i(result, i).metrics.BearingX == calls[_BMC][i].result.x_offset
+            and _rec_i(result, i).metrics.BearingY == calls[_BMC][i].result.y_offset
+            and _rec_i(result, i).metrics.width == color_glyphs[i].bitmap.size[0]
+            and _rec_i(result, i).metrics.height == color_glyphs[i].bitmap.size[1]
+            for i in range(len(color_glyphs))
+        ),
+        "index-names-in-glyph-order": lambda ttfont, color_glyphs, result: [n for n in result[0].indexSubTables[0].names] == [ttfont.names[c.glyph_id] for c in color_glyphs],
     }
     native = False
